@@ -1,0 +1,42 @@
+// Copyright The OpenTelemetry Authors
+// SPDX-License-Identifier: Apache-2.0
+
+//go:build verif
+
+package trace // import "go.opentelemetry.io/otel/sdk/trace"
+
+import "sync/atomic"
+
+// VerifHookFunc receives the name of an instrumentation point and values that
+// were already in scope there. It may block: a blocking hook is a scheduler
+// gate for conformance testing. Only built with -tags verif.
+type VerifHookFunc func(point string, args ...any)
+
+var verifHook atomic.Pointer[VerifHookFunc]
+
+// SetVerifHook installs (or, with nil, removes) the hook.
+func SetVerifHook(f VerifHookFunc) {
+	if f == nil {
+		verifHook.Store(nil)
+		return
+	}
+	verifHook.Store(&f)
+}
+
+func verifPoint(point string, args ...any) {
+	if h := verifHook.Load(); h != nil {
+		if bsp, ok := firstBSP(args); ok {
+			// expose the dropped counter as it is at this point
+			args = append(args[1:len(args):len(args)], atomic.LoadUint32(&bsp.dropped))
+		}
+		(*h)(point, args...)
+	}
+}
+
+func firstBSP(args []any) (*batchSpanProcessor, bool) {
+	if len(args) == 0 {
+		return nil, false
+	}
+	b, ok := args[0].(*batchSpanProcessor)
+	return b, ok
+}
